@@ -31,6 +31,7 @@ import subprocess
 import random
 
 import vlib
+from checks import translate_tie
 from checks import gen, genprogs
 
 PROPERTIES = {
@@ -168,8 +169,13 @@ def _hex_text(h):
         return h
 
 
+translate_tie.describe(PROPERTIES, "C19", "(here: the pkg/descriptor functions the renderers call: Unmarshal*, UnmarshalPhysical, ToPhysical, "
+                       "bounds, and the can.Data accessors)", translate_tie.TIE_NOTE_INT, translate_tie.TIE_NOTE_FLOAT)
+
+
 def run(res, replay=None):
     vlib.proof_stage(res)
+    translate_tie.run_tie(res, ["descriptor", "physical"])
     quick = res.tier == "quick"
     count = 12 if quick else 60
     states, pages, keep = (10, 24, 4) if quick else (300, 400, 40)
